@@ -1,9 +1,40 @@
 (* Property C04 (decoder half) — no byte sequence can crash or exhaust a TLV decoder.
-   Placeholder until Total.v lands: the decidable part on a concrete adversarial input. *)
-From Codec Require Import Schema Readers Model Spec GenSchemas.
+   Only theorem statements closed by `exact`, each followed by Print Assumptions.
+   Subject: `decode` / `decode_wire` of Codec/Model.v = the schema-interpreting model of every generated Parse function
+   over the BufferReader model and over ParseReader = BufferReader | WireReader (Codec/Readers.v), with Go run-time panics
+   (index / slice out of range, nil wire indexing) as explicit `Panic` outcomes of the reader models and of the parser.
+   The schema is arbitrary (well formed or not): the statements hold in particular for the 79 generated models.
+   What a proof cannot show here — heap growth and run time of the real Go code — is measured by the check on the
+   implementation (allocation per call, address-space limit, watchdog). *)
+From Codec Require Import Schema Readers Model Spec GenSchemas Total TotalBr TotalWr.
 Open Scope N_scope.
 
-(* non-vacuity / regression: inputs that crashed or hung the pinned code are rejected by the model of the fixed code *)
+(* any byte list, contiguous reader: a value or an error, never a panic; the model's own fuel (nesting depth =
+   input length + 1, loop iterations = Length() + 1) is never exhausted, i.e. the loops terminate on their own because
+   every iteration consumes input and every nested reader is strictly shorter *)
+Theorem decode_total : forall sc mi ic (b : bytes),
+  match decode sc mi ic b with Ok _ => True | Err e => e <> E_FUEL | Panic _ => False end.
+Proof. exact decode_total_b. Qed.
+Print Assumptions decode_total.
+
+(* the same for the segmented reader, any segmentation (empty segments, cuts inside T and L) *)
+Theorem decode_wire_total : forall sc mi ic (segs : list bytes),
+  match decode_wire sc mi ic segs with Ok _ => True | Err e => e <> E_FUEL | Panic _ => False end.
+Proof. exact decode_total_w. Qed.
+Print Assumptions decode_wire_total.
+
+(* from any reader state (e.g. a delegated sub-reader in the middle of a packet) *)
+Theorem parse_total_buffer : forall d sc mi ic r, (length (rest r) < d)%nat ->
+  match bparse d sc mi ic r with Ok _ => True | Err e => e <> E_FUEL | Panic _ => False end.
+Proof. exact bparse_total. Qed.
+Print Assumptions parse_total_buffer.
+
+Theorem parse_total_wire : forall d sc mi ic r, p_RI r -> (p_rem r < d)%nat ->
+  match wparse d sc mi ic r with Ok _ => True | Err e => e <> E_FUEL | Panic _ => False end.
+Proof. exact wparse_total. Qed.
+Print Assumptions parse_total_wire.
+
+(* non-vacuity / regression: inputs that crashed, hung or exhausted the pinned code are plainly rejected *)
 Example c04_example :
   (* unknown element with length 2^64-10: BufferReader.Skip used to go backwards -> endless loop *)
   decode pkg_std_ndn_spec_2022 2 true [240; 255; 255; 255; 255; 255; 255; 255; 255; 246] = Err E_EOF /\
